@@ -31,13 +31,18 @@ PIPES: Dict[str, List[str]] = {
     "file-sink": ["src", "sink_cfg"],
     # every run FAILS after the census point (unresolvable parameter): error paths must not leave residue either
     "failing": ["src", "<census>", "mul"],
+    # a processor class bound to its output key when the node is built (with_context_key generates a subclass)
+    "context-key-bound": ["src", "mul3", "<census>", {"processor": "ModelFittingContextProcessor",
+                                                       "parameters": {"fitting_model": "model:PolynomialFittingModel:degree=1", "context_key": "fit.coefficients"}}],
+    "keyword-only": ["src", "kwmul3", "kwtwo_cfg", "kwgainprobe"],
 }
+PIPE_CTX: Dict[str, Dict[str, Any]] = {"context-key-bound": {"x_values": [0.0, 1.0, 2.0], "y_values": [1.0, 3.0, 7.0]}, "keyword-only": {"factor": 5.0}}
 WAYS = ["reused-pipeline", "fresh-pipelines", "cli-launch", "queue-worker"]
 
 
 def nodes_for(pipe: str) -> List[dict]:
     if "<census>" in PIPES[pipe]:
-        return [{"processor": "VCensus"} if s == "<census>" else copy.deepcopy(gen.SYMBOLS[s]["node"]) for s in PIPES[pipe]]
+        return [{"processor": "VCensus"} if s == "<census>" else copy.deepcopy(s if isinstance(s, dict) else gen.SYMBOLS[s]["node"]) for s in PIPES[pipe]]
     nodes = [copy.deepcopy(gen.SYMBOLS[s]["node"]) for s in PIPES[pipe]]
     # the census processor needs float data: place it where the data is a float
     kinds = [gen.SYMBOLS[s]["kind"] for s in PIPES[pipe]]
@@ -72,7 +77,7 @@ def run_way(pipe: str, way: str, n: int) -> dict:
 
     def once(p):
         try:
-            p.process(Payload(None, ContextType({})))
+            p.process(Payload(None, ContextType(copy.deepcopy(PIPE_CTX.get(pipe, {})))))
         except KeyError:
             if not failing:
                 raise
@@ -86,7 +91,8 @@ def run_way(pipe: str, way: str, n: int) -> dict:
             once(Pipeline(cfg.nodes))
     elif way == "cli-launch":
         y = {"extensions": ["verif_lib"], "pipeline": {"nodes": nodes_for(pipe)},
-             "run_space": {"max_runs": n + 1, "blocks": [{"mode": "by_position", "context": {"zz": [float(i) for i in range(n)]}}]}}
+             "run_space": {"max_runs": n + 1, "blocks": [{"mode": "by_position", "context": {"zz": [float(i) for i in range(n)],
+                                                                                        **{k: [copy.deepcopy(v) for _ in range(n)] for k, v in PIPE_CTX.get(pipe, {}).items()}}}]}}
         yp = cli.write_yaml(os.path.join(scratch, "p.yaml"), y)
         res = cli.run_cli(["run", yp, "-q"])
         if res.code != 0:
@@ -109,7 +115,7 @@ def run_way(pipe: str, way: str, n: int) -> dict:
         mt.start()
         wt.start()
         for i in range(n):
-            f = orch.enqueue(cfg.nodes, data=None, context=ContextType({}), return_future=True)
+            f = orch.enqueue(cfg.nodes, data=None, context=ContextType(copy.deepcopy(PIPE_CTX.get(pipe, {}))), return_future=True)
             if failing:
                 if f.exception(timeout=60) is None:
                     return {"error": "a failing job's Future completed without an exception"}
@@ -189,7 +195,7 @@ def _worker(chunk):
 
 def check(tier: str, seed: int) -> Result:
     n = 150 if tier == "quick" else 450
-    pipes = list(PIPES) if tier == "thorough" else ["plain-op", "context-processors", "slicers", "sweep-op", "payload-source-sink", "failing"]
+    pipes = list(PIPES) if tier == "thorough" else ["plain-op", "context-processors", "slicers", "sweep-op", "payload-source-sink", "failing", "context-key-bound"]
     jobs = [(p, w, n) for p in pipes for w in WAYS if not (p == "failing" and w == "cli-launch")]
     jobs = core.seeded_order(jobs, seed)
     viols: List[Violation] = []
